@@ -122,6 +122,7 @@ static int t_wellformed (struct yaep_tree_node *root, int alt_ok) { t_nil = t_er
    Structure is concrete; attribute/code/cost comparisons may be symbolic, so the result is
    combined without branching.  check_cost: 0 no cost check, 1 node cost == rule cost. */
 static int t_check_cost;
+static int t_ignore_attr;      /* compare TERM nodes by code only */
 static int t_match (struct yaep_tree_node *n, int t, int depth)
 {
   const struct otree *o = &o_t[t]; int r, k;
@@ -138,6 +139,7 @@ static int t_match (struct yaep_tree_node *n, int t, int depth)
     case OT_ERR: return n->type == YAEP_ERROR;
     case OT_TERM:
       if (n->type != YAEP_TERM) return 0;
+      if (t_ignore_attr) return n->val.term.code == p_code[p_map[o->pos]];
       return (n->val.term.code == p_code[p_map[o->pos]]) & ((long) n->val.term.attr == p_attr[p_map[o->pos]]);
     default:
       if (n->type != YAEP_ANODE) return 0;
@@ -213,7 +215,7 @@ static int d_match (int d, int t)
     {
     case OT_NIL: return n->type == YAEP_NIL;
     case OT_ERR: return n->type == YAEP_ERROR;
-    case OT_TERM: if (n->type != YAEP_TERM) return 0; return (n->val.term.code == p_code[p_map[o->pos]]) & ((long) n->val.term.attr == p_attr[p_map[o->pos]]);
+    case OT_TERM: if (n->type != YAEP_TERM) return 0; if (t_ignore_attr) return n->val.term.code == p_code[p_map[o->pos]]; return (n->val.term.code == p_code[p_map[o->pos]]) & ((long) n->val.term.attr == p_attr[p_map[o->pos]]);
     default:
       if (n->type != YAEP_ANODE || strcmp (n->val.anode.name, G.rule[o->rule].anode) != 0 || D->nch != o->nch) return 0;
       r = 1;
